@@ -106,6 +106,7 @@ class MachineRun:
         self.tlc = vlib.tlc_corpus(fam, tier, seed, self.cdir, cfg=cfg)
         self.secs = time.time() - t0
         self.cases = []
+        self.real_only = []     # cases beyond the model-checking bound: no expectation, real runs only
         self.by_g = {g.id: g for g in self.grammars}
         if self.real["build_ok"]:
             exp = {(r["g"], tuple(r["inp"])): r for r in self.tlc["replays"]}
@@ -116,8 +117,12 @@ class MachineRun:
                 key = (a["g"], tuple(a["inp"]))
                 e = exp.get(key)
                 if e is None:
+                    g_ = self.by_g[a["g"]]
+                    if [chr(c) for c in a["inp"]] in getattr(g_, "real_extra", []):
+                        self.real_only.append(Case(fam, g_, a["inp"], None, a))
+                        continue
                     if self.tlc["rc"] == 0:
-                        raise ToolError("no expected outcome for %s %r" % key)
+                        raise ToolError("no expected outcome for %s %r" % (key[0], key[1][:40]))
                     continue
                 self.cases.append(Case(fam, self.by_g[a["g"]], a["inp"], e, a))
 
@@ -138,7 +143,7 @@ class Violation:
         d = {"formula": self.formula}
         if self.case is not None:
             d.update({"family": self.case.fam, "shape": self.case.g.meta.get("shape", self.case.gid),
-                      "input": self.case.text})
+                      "input": self.case.text if len(self.case.text) < 80 else self.case.text[:77] + "..."})
         d.update({k: v for k, v in self.extra.items() if k in ("site", "history", "name")})
         return d
 
@@ -150,7 +155,8 @@ class Violation:
             d.update({"family": c.fam, "grammar_id": c.gid, "shape": c.g.meta.get("shape"),
                       "grammar": peg.grammar_text(c.g), "root": c.g.root, "input": c.text,
                       "input_codepoints": c.inp,
-                      "expected": {k: c.exp[k] for k in ("ok", "end", "tree", "errp", "errk") if k in c.exp},
+                      "expected": ({k: c.exp[k] for k in ("ok", "end", "tree", "errp", "errk") if k in c.exp}
+                                   if c.exp else "beyond the model-checking bound: judged by monitors / variant comparison"),
                       "actual": c.act.get("res", {"crash": c.act.get("crash")})})
         d.update(self.extra)
         return d
